@@ -73,6 +73,9 @@ def generate(rng, tier, idx):
         allow_default = d <= 3 and table['n'] <= (600 if thorough else 300)
         colnames = table.get('names') or ['c%d' % i for i in range(d)]
         config = gmvlib.rand_config(rng, colnames, allow_default=allow_default)
+        if 'gaussian_kde' in str(config).lower() or 'GaussianKDE' in str(config):
+            if rng.random() < 0.3:
+                table['n'] = rng.choice([600, 700])     # points x kernels beyond 1e6 at n=2000
     run = {'table': table, 'config': config, 'seed': zoo.rand_seedspec(rng),
            'fit_state': rng.randrange(2**31), 'g0': rng.randrange(2**31), 'closed': closed}
     if not closed and rng.random() < 0.2:
@@ -277,6 +280,44 @@ def _check_recovery(ctx, run, model, train_df, R_true):
                         % (j, marg, dev, eps), d=d, n=n)
 
 
+def _check_marginals_fitted_to_own_column(ctx, run, model, train_df):
+    """'the marginal fitted for that column': where the configuration names a plain family
+    (class or qualified name, globally or per column) the column's marginal must equal a fresh
+    instance of that family fitted on that column alone - whatever else was fitted before."""
+    from copsim.core import same
+    from copsim.seams import sterile
+    cfg = run['config']
+    dist = (cfg.get('ctor') or {}).get('distribution')
+    for j, (name, uni) in enumerate(zip(model.columns, model.univariates)):
+        spec = dist
+        if isinstance(dist, dict) and '__map__' in dist:
+            spec = dist['__map__'].get(str(name))
+        fam = None
+        if isinstance(spec, str):
+            fam = spec
+        elif isinstance(spec, dict) and '__cls__' in spec:
+            fam = spec['__cls__']
+        if fam is None:
+            continue
+        cls = zoo.load_class(fam)
+        if type(uni) is not cls:
+            continue                                  # fell back to a Gaussian: C05's matter
+        with sterile(run.get('fit_state', 1)):
+            ref = cls()
+            o = outcome(ref.fit, train_df[name])
+        if o[0] != 'ok':
+            continue
+        a, b = outcome(uni.to_dict), outcome(ref.to_dict)
+        ctx.stats['column_model_comparisons'] += 1
+        if a[0] == 'ok' and b[0] == 'ok' and not same(a[1], b[1]):
+            ctx.violate('a_marginal_is_fitted_to_its_own_column', SUBJECT.replace('.sample', '.fit'),
+                        'column %r: the model holds a %s with %s, a fresh one fitted on this '
+                        'column has %s' % (name, cls.__name__,
+                                           {k: v for k, v in a[1].items() if k not in ('type', 'dataset')},
+                                           {k: v for k, v in b[1].items() if k not in ('type', 'dataset')}),
+                        d=len(model.columns), config=cfg['form'], family=cls.__name__)
+
+
 def execute(run):
     ctx = Ctx(run)
     np.random.seed(run['g0'] % (2**32))
@@ -304,6 +345,7 @@ def execute(run):
         ctx.probes['near_singular_correlation'] += 1
     if run.get('closed'):
         _check_recovery(ctx, run, model, train_df, R_true)
+    _check_marginals_fitted_to_own_column(ctx, run, model, train_df)
     recognised = [False]
     # protocol recognition probe, out of band: a copy of the model samples 16 rows under an
     # unrelated global state; calls with n < 8 are then checked exactly too
